@@ -30,3 +30,8 @@ CLAIMED["C14"] = (
  "static analysis: demand-driven difference-constraint prover (ABCD style) over go/ssa with dominating-branch facts, callee summaries and closed-world caller guards, applied to every slice/index/allocation whose bound derives from a length field, a subtraction or a lossy conversion in the input-facing decoders; bounded-allocation rule; goroutine recovery rule; no-panic scan; decoder state rule",
  "Decides for each of ~90 bound uses in the envelope, wire-protocol, token and codec decoders that the bound is proven in range from the conditions that dominate it (or is in the frozen, reasoned confirmed-table), that every input-sized allocation has a bound the sender does not control alone, that AcraServer's connection goroutines defer recoverConnection before running connection code, and that the decoders contain no explicit panic. Not decided: termination and memory of the SQL parser, scanner loop invariants (covered by the cursor-step rule of C01), invariants carried by struct fields (e.g. non-empty MySQL payloads), YAML/ASN.1 library internals.",
  NOTE, "DESIGN.md §2 C14, §1 E1")
+
+CLAIMED["C03"] = (
+ "static analysis: the guarded-bound prover over the envelope decoders (header fields and constant offsets), CFG rules for fail-closed two-stage decryption and search-hash comparison, same-value return rules for the transparent path",
+ "Decides that no header field of a protected value can index, slice or size an allocation out of range in the envelope decoders, that AcraBlock.Decrypt authenticates the key block only on the key-id match, decrypts the payload only with the key obtained from it, under the caller's context, and turns every failure into an error, that every hash comparison answers 'not equal' with an error, and that the transparent path returns the very input container / re-emits input bytes when nothing could be decrypted. That the AEAD rejects every altered byte is delegated to Themis; the 'identical plaintext or error' disjunction as a whole is not decided.",
+ NOTE, "DESIGN.md §2 C03")
